@@ -133,8 +133,8 @@ theorem flags_predict_readonly (pre : Predef) (env : Env V) (n : Node J V) (hwf 
 theorem flags_predict_writable (pre : Predef) (env : Env V) (n : Node J V) (hwf : Node.WF pre n) (m a : String)
     (ad : AccDesc J) (h : findDesc (describe pre n) m a = some ad) (hro : ad.readonly = some false) (j : J) :
     ∃ mod p, lookupParam pre n m a = .ok (mod, p) ∧ p.readonly = false ∧ p.constant = none ∧
-      ∀ v w, p.dt.accept j (some p.entry.value) = .ok v → p.dt.revalidate v = .ok w →
-        ChecksOK env mod p.attr v p.checks →
+      ∀ v w, p.dt.accept j (some p.entry.value) = .ok v → (p.isLimitsPair = true → pairInverted env v = false) →
+        p.dt.revalidate v = .ok w → ChecksOK env mod p.attr v p.checks →
         handleChange pre env n (.full m a) j = finishWrite pre env n mod p v w := by
   have hk : ad.kind = .parameter := by
     rw [findDesc_eq pre n hwf.names m a] at h
@@ -163,8 +163,8 @@ theorem flags_predict_writable (pre : Predef) (env : Env V) (n : Node J V) (hwf 
       have := hwf.constRO mod hex.1 (.param p) hex.2.2.2.1 p rfl (by rw [hc]; rfl)
       rw [this] at hr; cases hr
   refine ⟨mod, p, hl, hr.symm, hc, ?_⟩
-  intro v w hacc hrev hchk
-  have hadm := (Frappy.Props.C04.admitChange_ok_iff env mod p j v w).2 ⟨hr.symm, hc, hacc, hrev, hchk⟩
+  intro v w hacc hord hrev hchk
+  have hadm := (Frappy.Props.C04.admitChange_ok_iff env mod p j v w).2 ⟨hr.symm, hc, hacc, hord, hrev, hchk⟩
   unfold handleChange
   simp only [target]; rw [hl]; simp only; rw [hadm]
 
@@ -173,7 +173,8 @@ theorem flags_predict_writable (pre : Predef) (env : Env V) (n : Node J V) (hwf 
 theorem flags_predict (pre : Predef) (n : Node J V) (hwf : Node.WF pre n) (m a : String)
     (ad : AccDesc J) (h : findDesc (describe pre n) m a = some ad) (hk : ad.kind = .parameter)
     (hsome : ∀ mod p, lookupParam pre n m a = .ok (mod, p) →
-      ∃ (env : Env V) (j : J) (v w : V), p.dt.accept j (some p.entry.value) = .ok v ∧ p.dt.revalidate v = .ok w ∧
+      ∃ (env : Env V) (j : J) (v w : V), p.dt.accept j (some p.entry.value) = .ok v ∧
+        (p.isLimitsPair = true → pairInverted env v = false) ∧ p.dt.revalidate v = .ok w ∧
         ChecksOK env mod p.attr v p.checks) :
     ad.readonly = some true ↔
       ∀ (env : Env V) (j : J), handleChange pre env n (.full m a) j = ⟨.error .readOnly, [], [], n⟩ := by
@@ -185,10 +186,10 @@ theorem flags_predict (pre : Predef) (n : Node J V) (hwf : Node.WF pre n) (m a :
     | true => rw [hr, hb]
     | false =>
       exfalso
-      obtain ⟨env, j, v, w, hacc, hrev, hchk⟩ := hsome mod p hl
+      obtain ⟨env, j, v, w, hacc, hord, hrev, hchk⟩ := hsome mod p hl
       obtain ⟨mod', p', hl', _, _, hfin⟩ := flags_predict_writable pre env n hwf m a ad h (by rw [hr, hb]) j
       rw [hl] at hl'; injection hl' with hl'; injection hl' with h1 h2; subst h1; subst h2
-      have heq := hfin v w hacc hrev hchk
+      have heq := hfin v w hacc hord hrev hchk
       rw [hall env j] at heq
       have hcalls := congrArg Outcome.calls heq
       have hreply := congrArg Outcome.reply heq
@@ -277,7 +278,7 @@ theorem undescribed_unreachable (pre : Predef) (env : Env V) (n : Node J V) (hwf
     · simp [handleRead, target, lookupParam, hf, findParam, hw, refuse, mkErr]
     · simp [handleDo, targetDo, lookupCommand, hf, findCommand, hw, refuse, mkErr]
     · cases he : mod.exported with
-      | true => exact ⟨.noSuchParameter, by simp [activateRefusal, hf, he, hw], Or.inr rfl⟩
+      | true => exact ⟨.noSuchParameter, by simp [activateRefusal, hf, he, findParam, hw], Or.inr rfl⟩
       | false => exact ⟨.noSuchModule, by simp [activateRefusal, hf, he], Or.inl rfl⟩
 
 /-- a module that is not in the report cannot be addressed at all -/
@@ -393,7 +394,7 @@ theorem change_emits_validated (pre : Predef) (env : Env V) (n : Node J V) (hwf 
     rw [hvd] at hv
     obtain ⟨mod, p, hmem, _, _, _, ⟨m', a', _, hlook⟩, hadm, heq⟩ := hv
     have hex := exported_of_lookupParam pre n m' a' mod p hlook
-    obtain ⟨_, _, hacc, hrev, _⟩ := (admitChange_ok_iff env mod p j v w0).1 hadm
+    obtain ⟨_, _, hacc, _, hrev, _⟩ := (admitChange_ok_iff env mod p j v w0).1 hadm
     rw [heq] at h
     unfold finishWrite at h
     split at h
@@ -434,6 +435,111 @@ theorem emits_importable (pre : Predef) (env : Env V) (n : Node J V) (hwf : Node
   have := find?_of_nodup_filterMap (wireName pre mod) mod.accs (hwf.wires mod hmem) (.param p) hacc w hw
   unfold findWire; rw [this]; simp only [Option.bind_some]
   exact describeAcc_param pre mod p w hw
+
+/-- the same for `read`: an update emitted by a read is either an error report or the export of a value the
+datatype of the described parameter produced (`datatype(raw)`) -/
+theorem read_emits_validated (pre : Predef) (env : Env V) (n : Node J V) (spec : Spec) (hd : Bool)
+    (msg : Msg J) (h : msg ∈ (handleRead pre env n spec hd).emits) :
+    (∃ m w c, msg = .errorUpdate m w c) ∨
+    ∃ mod p w v, mod ∈ n ∧ Acc.param p ∈ mod.accs ∧ wireName pre mod (.param p) = some w ∧
+      msg = .update mod.name w (p.dt.exportV v) ∧ Validated p.dt v := by
+  have hfail : ∀ (mod : Module J V) (p : Param J V) (e : Err) (calls : List (DriverCall V)),
+      msg ∈ (readFailed pre n mod p e calls).emits → ∃ m w c, msg = .errorUpdate m w c := by
+    intro mod p e calls hm
+    unfold readFailed at hm
+    split at hm
+    · cases hm
+    · simp only at hm
+      split at hm
+      · simp only [List.mem_singleton] at hm; exact ⟨_, _, _, hm⟩
+      · cases hm
+  unfold handleRead at h
+  split at h
+  · cases h
+  · split at h
+    · cases h
+    · split at h
+      · cases h
+      · rename_i m a mod p hl
+        have hex := exported_of_lookupParam pre n _ _ mod p hl
+        unfold readParam at h
+        split at h
+        · cases h
+        · split at h
+          · simp only at h
+            split at h
+            · cases h
+            · exact Or.inl (hfail _ _ _ _ h)
+            · split at h
+              · exact Or.inl (hfail _ _ _ _ h)
+              · rename_i v hv
+                obtain ⟨w, hw, hm⟩ := announce_mem pre mod p v msg h
+                exact Or.inr ⟨mod, p, w, v, hex.1, hex.2.2.2.1, hw, hm, Or.inr (Or.inr ⟨_, hv⟩)⟩
+          · cases h
+
+/-- every value update any request emits is the export of a validated value of the described parameter it names -/
+theorem step_emits_validated (pre : Predef) (env : Env V) (n : Node J V) (hwf : Node.WF pre n) (r : Request J)
+    (m w : String) (jv : J) (h : Msg.update m w jv ∈ (step pre env n r).emits) :
+    ∃ mod p v, mod ∈ n ∧ mod.name = m ∧ Acc.param p ∈ mod.accs ∧ wireName pre mod (.param p) = some w ∧
+      jv = p.dt.exportV v ∧ Validated p.dt v := by
+  cases r with
+  | change spec j =>
+    obtain ⟨mod, p, w', v, hmem, hacc, hw, hm, hval⟩ := change_emits_validated pre env n hwf spec j _ h
+    injection hm with h1 h2 h3
+    exact ⟨mod, p, v, hmem, h1.symm, hacc, h2 ▸ hw, h3, hval⟩
+  | do_ spec data =>
+    have : (step pre env n (.do_ spec data)).emits = [] := by
+      simp only [step]; unfold handleDo
+      split
+      · rfl
+      · split
+        · rfl
+        · split
+          · rfl
+          · exact (finishDo_calls ..).2.2
+    rw [this] at h; cases h
+  | read spec hd =>
+    rcases read_emits_validated pre env n spec hd _ h with ⟨_, _, _, he⟩ | ⟨mod, p, w', v, hmem, hacc, hw, hm, hval⟩
+    · cases he
+    · injection hm with h1 h2 h3
+      exact ⟨mod, p, v, hmem, h1.symm, hacc, h2 ▸ hw, h3, hval⟩
+
+theorem describe_step (pre : Predef) (env : Env V) (n : Node J V) (r : Request J) :
+    describe pre (step pre env n r).node = describe pre n := by
+  rcases step_node pre env n r with h | ⟨mod, attr, e, h⟩
+  · rw [h]
+  · rw [h]; exact describe_setEntry pre n mod attr e
+
+/-- **emits_importable, all requests, all histories** (relative to the datatype oracle law).  Every value update
+emitted at any point of any history — by a `change` or by a `read` — can be imported with the datainfo that the
+report (taken at any time: it is stable) gives for the name the update carries. -/
+theorem emits_importable_history (pre : Predef) (clientImports : J → J → Bool)
+    (law : ∀ (dt : DtOps J V) (v : V), Validated dt v → clientImports dt.datainfo (dt.exportV v) = true)
+    (n : Node J V) (hwf : Node.WF pre n) (h : List (Env V × Request J))
+    (o : Outcome J V) (ho : o ∈ run pre n h) (m w : String) (jv : J) (hm : Msg.update m w jv ∈ o.emits) :
+    ∃ ad, findDesc (describe pre n) m w = some ad ∧ clientImports ad.datainfo jv = true := by
+  induction h generalizing n with
+  | nil => cases ho
+  | cons er rest ih =>
+    obtain ⟨env, r⟩ := er
+    simp only [run, List.mem_cons] at ho
+    rcases ho with rfl | ho
+    · obtain ⟨mod, p, v, hmem, hname, hacc, hw, hjv, hval⟩ := step_emits_validated pre env n hwf r m w jv hm
+      subst hname; subst hjv
+      refine ⟨⟨w, .parameter, p.dt.datainfo, some p.readonly, p.constant.map p.dt.exportV, p.props⟩, ?_, law p.dt v hval⟩
+      rw [findDesc_eq pre n hwf.names mod.name w, findModule_of_mem pre n hwf mod hmem]
+      simp only
+      have hexp : mod.exported = true := by
+        unfold wireName at hw; split at hw
+        · assumption
+        · cases hw
+      rw [hexp]; simp only [if_true]
+      have := find?_of_nodup_filterMap (wireName pre mod) mod.accs (hwf.wires mod hmem) (.param p) hacc w hw
+      unfold findWire; rw [this]; simp only [Option.bind_some]
+      exact describeAcc_param pre mod p w hw
+    · have := ih (step pre env n r).node (wf_step pre env n hwf r) ho
+      rw [describe_step] at this
+      exact this
 
 /-- **described_datainfo_equiv** (relative to the datatype oracle).  Assume the C03 law: the client datatype
 rebuilt from a datainfo accepts exactly the payloads the original datatype accepts.  Then the described datainfo of
